@@ -1,7 +1,7 @@
 (* C17: default values through prose.  Statements only; the lemmas live in proofs/DefaultsFacts.v. *)
 From Coq Require String.
 Import String.StringSyntax.
-From DT Require Import PyStr PyVal TyExpr PureUtils Defaults C17Spec DefaultsFacts.
+From DT Require Import PyStr PyVal TyExpr PureUtils Defaults C17Spec DefaultsFacts C17More.
 
 (* completeness of the finding classes: in the domain and outside every class the property holds
    (in the model) *)
@@ -61,3 +61,42 @@ Example C17_nonvacuous :
   /\ prose_ok (L "name of dataset.") = true.
 Proof. exact C17_nonvacuous_lemma. Qed.
 Print Assumptions C17_nonvacuous.
+
+(* ---- further class-free corollaries (proofs/C17More.v) ---- *)
+
+(* declared str: any non-empty text of plain characters (printable ASCII without quote marks,
+   backslash, full stop, back-tick, brackets) that contains no announcement phrase; the value is
+   written quoted and read back through literal_eval *)
+Theorem C17_str_typed : forall a d s, prose_ok d = true -> plain_word s = true ->
+    C17_at a d (VStr s) (Some (L "str")).
+Proof. exact C17_str_typed_lemma. Qed.
+Print Assumptions C17_str_typed.
+
+(* undeclared: plain words that begin with a letter or underscore, do not end with a blank and are
+   not True, False or (in any case) inf, infinity, nan *)
+Theorem C17_str_untyped : forall a d s, prose_ok d = true -> bare_word s = true ->
+    C17_at a d (VStr s) None.
+Proof. exact C17_str_untyped_lemma. Qed.
+Print Assumptions C17_str_untyped.
+
+(* floats whose repr is plain decimal text that float() maps to itself *)
+Theorem C17_float_plain : forall a d r, prose_ok d = true -> canonical_plain_float r = true ->
+    C17_at a d (VFloat r) None /\ C17_at a d (VFloat r) (Some (L "float")).
+Proof. exact C17_float_plain_lemma. Qed.
+Print Assumptions C17_float_plain.
+
+(* a value text without announcement phrase never moves the search, whatever the phrase used *)
+Theorem C17_value_announce_ok : forall a x, no_announce x = true -> value_announce_ok a x = true.
+Proof. exact value_announce_ok_no_announce. Qed.
+Print Assumptions C17_value_announce_ok.
+
+Example C17_more_nonvacuous :
+  plain_word (L "mnist") = true
+  /\ plain_word (L "~/tensorflow datasets") = true
+  /\ bare_word (L "mnist") = true
+  /\ bare_word (L "tensorflow_datasets") = true
+  /\ canonical_plain_float (L "0.5") = true
+  /\ canonical_plain_float (L "123456.789") = true
+  /\ canonical_plain_float (L "-0.001") = true.
+Proof. exact C17_more_nonvacuous_lemma. Qed.
+Print Assumptions C17_more_nonvacuous.
